@@ -210,6 +210,21 @@ func crashScenario(spec *crashSpec) *Scenario {
 						}
 					}))
 				}
+				if s4, err := a.OpenStream(4, PayloadTypeWebRTCBinary); err == nil {
+					mu.Lock()
+					m.streamsSeen = append(m.streamsSeen, s4)
+					mu.Unlock()
+					track(0, m.Go("writeA.4", func() {
+						for i := 0; i < 3; i++ {
+							_, err := s4.WriteSCTP(payload(4, i, 260), PayloadTypeWebRTCBinary)
+							if err != nil {
+								noteErr("writeA.4", err)
+								return
+							}
+							m.S.Yield()
+						}
+					}))
+				}
 				track(0, m.Go("resetA.2", func() {
 					if _, err := s2.WriteSCTP(payload(2, 0, 40), PayloadTypeWebRTCBinary); err != nil {
 						noteErr("writeA.2", err)
